@@ -714,3 +714,23 @@ def m_boxed_dyn_fn(c):
 @model('RangeInclusive::new', 'std::ops::RangeInclusive::new', 'core::ops::RangeInclusive::new')
 def m_range_inclusive_new(c):
     return Struct('std::ops::RangeInclusive', {0: c.args[0], 1: c.args[1], 2: z3.BoolVal(False)})
+
+
+# ---- awaiting a stubbed async fn: the stub returns Struct('ReadyFuture', {0: value}); the await of it completes at the first poll
+@pattern(r'^<\{async fn body of .*\} as (std::future::|core::future::)?IntoFuture>::into_future$')
+def m_into_future(c):
+    return c.args[0]
+
+
+@pattern(r'^Pin::<&mut \{async fn body of .*\}>::new_unchecked$|^Pin::new_unchecked$')
+def m_pin_new_unchecked(c):
+    return Struct('Pin', {0: c.args[0]})
+
+
+@pattern(r'^<\{async fn body of .*\} as (std::future::|core::future::)?Future>::poll$')
+def m_ready_future_poll(c):
+    pin = c.args[0]
+    fut = deref(c.st, pin.fields[0]) if isinstance(pin, Struct) and pin.ty == "Pin" else deref(c.st, pin)
+    if not (isinstance(fut, Struct) and fut.ty == "ReadyFuture"):
+        raise Unsupported('poll of a future that is not a stubbed ready value')
+    return Enum('Poll', 0, {('Ready', 0): fut.fields[0]}, variant='Ready')
